@@ -60,8 +60,9 @@ def post_minvar(X, order, sampling, NFFT, OLD, result):
     if not c.require('minvar:lengths', psd.shape == (nfft,) and A.shape == (m,) and k.shape == (m - 1,),
                      {'psd': list(psd.shape), 'A': list(A.shape), 'k': list(k.shape), 'm': m, 'NFFT': nfft}, feats):
         return
-    c.compare('minvar:returns-burg-reflection', k, kref, 1e-10 * max(1.0, amp), feats, scale=1.0)
-    c.compare('minvar:returns-burg-ar-with-leading-1', A, refs.stepup(kref), 1e-10 * max(1.0, amp), feats,
+    btol = max(1e-12, 100 * 2.2e-16 * max(1, len(kref)) ** 2 * max(1.0, amp))     # see C13: <= 9 eps q^2 amp on the unchanged tree
+    c.compare('minvar:returns-burg-reflection', k, kref, btol, feats, scale=1.0)
+    c.compare('minvar:returns-burg-ar-with-leading-1', A, refs.stepup(kref), btol * (1 + float(np.sum(np.abs(kref)))), feats,
               scale=1 + float(np.max(np.abs(A))))
     c.require('minvar:psd-real-positive', bool(np.isrealobj(psd) and np.all(np.isfinite(psd)) and np.all(psd > 0)),
               {'min': float(np.nanmin(psd.real)), 'dtype': str(psd.dtype)}, feats)
@@ -146,6 +147,9 @@ def cases(c):
             d['amp'] = gen.pick(rng, [9, 1000, 30000])
         elif i % 6 == 1:
             d['amp10'] = int(gen.pick(rng, [-12, -9, -6, 6, 9, 10]))     # "any data": amplitude is only a unit (raw ADC counts, volts)
+        elif i % 6 == 3:
+            # nearly predictable records: tones 60..90 dB above the noise (prediction error 1e-6..1e-9 of the power)
+            d.update(kind='tones', snr_db=float(gen.pick(rng, [60, 70, 80, 90])), K=int(gen.pick(rng, [1, 2])), cont='array')
         out.append(d)
     return out
 
